@@ -64,6 +64,41 @@ CHECKS = {
     text="maps of <= 2 labels with symbolic (possibly coinciding) names: inner span over outer span, later record() over earlier value, metric label over span field, filter verdict respected, no name twice, nothing dropped, no new key without span labels",
     note="reduced claim: tracing-subscriber's registry is modelled (parent link + one Labels slot); the dispatcher, thread-local current span, other threads' spans and field value formatting are NOT covered", ref="§4 C17"),
 }
+
+# ---- extensions built after the table above was first written (text appended, stale notes replaced)
+MORE = {
+ "C01": dict(text="; macro argument forms: 25 call sites covering every form of counter!/gauge!/histogram!/describe_*! (literal and computed names, literal labels, level:, target:, unit), computed-name sites reached twice: each is delivered exactly once with the name, labels, level, target, unit and description spelled there",
+             note="one thread; thread-local isolation is the language guarantee; macro forms: Key/Label constructors abstract (C03/C14), non-literal label expressions (vec! allocation) not covered"),
+ "C03": dict(text="; with_extra_labels on an already hashed base key equals / hashes like the directly built key; two labels with one name in either order hash alike"),
+ "C05": dict(text="; a snapshot read and is_empty() account for every push that completed before they began (no clear involved); values of one pusher appear in push order within a block",
+             note="block size 2; crossbeam-epoch trusted; quiescence waits as awaits; values are tags without destructors; quick tier: 5 shapes (race freedom on two of them), thorough: 10 shapes, <=3 pushes / 2 pushers / 2 clears"),
+ "C06": dict(text="; equal keys hash alike on the compiled code (Kani: two labels with one name in either order; with_extra_labels on a hashed key)"),
+ "C07": dict(text="; the value printed for a counter / gauge series is the stored value and reads back as the same f64 for every bit pattern (render at character level, number tokens carry value and type; float/int casts in the FP theory); a summary series keeps its full _count across any quiet time and upkeep (recorder-level integration encoding: real builder, Recency, distribution map, RollingSummary)",
+             note="conservation chain up to the Snapshot that render() prints; sequential histories (record-during-render: C05/C19-style interference is not encoded here); registry, bucket, key_to_parts and the DDSketch abstract"),
+ "C08": dict(text="; key_to_parts on keyed containers incl. label-less keys with global labels; the value on a counter / gauge sample line is the stored value in a form that reads back exactly",
+             note="bounded string lengths (names <= 3-4, values <= 4-5 characters, 1-character label parts in key_to_parts); one family with one label set per render scenario; Display of integers / floats trusted (exact / shortest round-trip)"),
+ "C09": dict(text="; every payload is exactly `[prefix.]name(:value)+|type[|@rate][|#global tags,own tags][|T ts]\\n` of one write with that write's own sample rate / timestamp / tags, values in order, also for the same key written twice and across flush cycles; the buffer's capacity is its high-water mark (drain-time buffer replacement)"),
+ "C10": dict(text="; State::flush idle protocol histories; histogram (sampling off): every value recorded before or during a flush (interference at bucket-operation boundaries) is handed to exactly one flush; framing over two flush cycles on one writer (C09's encoding)",
+             note="one updater and one flusher thread for the counter/gauge schedules; the histogram's bucket operations are atomic steps (C05); socket I/O not covered"),
+ "C11": dict(text="; the transport thread's event loop: run_transport executed over scripted poll() results (accept, channel messages, fan-out with drop-oldest, writable clients; socket outcomes and frame lengths symbolic): per client whole frames only, metadata known at connect time (latest unit/description) first, then the metrics received afterwards in order, a reading client gets everything, client_count = connected clients and should_send accordingly after every batch",
+             note="<= 2 clients, <= 7 batches; mio / crossbeam-channel / prost by their documented behaviour; the emitting side (Handle::push_metric racing with should_send) and client sockets becoming readable are outside the bound"),
+ "C12": dict(text="; usage histories from Recency::new (any mask, timeout, 0..2 updates and any time step before each of 3-5 observations over 1-2 kinds, re-registration after a drop) against the property's reference; recorder level (real builder + Recency + distribution map, with and without global labels): dropped iff idle longer than the timeout, kept with full value otherwise, fresh series after a drop",
+             note="std HashMap as keyed container of concrete size; clock = scenario time (integers); registry abstract at recorder level; decision tables from an arbitrary internal state are skipped on a tree with another bookkeeping layout (the histories do not depend on it)"),
+ "C13": dict(text="; E3: Fanout[r1,r2] <- PrefixLayer <- PrefixLayer built by the real constructors, describe + register twice + update through the second handle reach each recorder exactly once with both prefixes (names that already begin with a prefix included); router / filter through their real constructors, filter by pattern containment with ASCII case folding"),
+ "C14": dict(text="; releases with a layout that does not match the allocation (CBMC's rust_dealloc / free checks) are confirmed natively by a checking global allocator; values sharing a start address but not a length compare unequal"),
+ "C15": dict(text="; rolling summary: for 2-4 samples with any non-decreasing timestamps, any bucket duration and 1-3 buckets, the snapshot (sketch = multiset of samples) contains no sample older than the window, every sample well inside it, and the total count is the number of samples; recorder level: _count survives any quiet time and upkeep",
+             note="<=3 bounds, <=3 samples (Kani); two overrides with patterns of 1-2 characters; out-of-order timestamps within a batch and DDSketch accuracy are outside the claim"),
+ "C16": dict(text="; the sample rate does not change while the drain is iterated; a value pushed while a drain is held is yielded by the next drain, once; E3 schedules (1-2 pushers || consume): only this cycle's values, none twice, within capacity none lost outside the two recorded mechanisms K9 / K10",
+             note="uniformity of rand's random_range and the induction are trusted; capacity <= 2"),
+ "C18": dict(text="; the allowlist as the real pipeline (new_http_listener builds the exporter, then check_tcp_allowed) over 1-3 IPv4 networks of any address / prefix length (nested, overlapping, unsorted, host bits) and any loopback peer; the accept loop (serve_tcp's state machine -> spawned task -> handler response) over 2 accepted / failed connections with failing peer_addr(): one answer per accepted connection following the allowlist, the loop never ends",
+             note="IPv6 is outside the encoding (ipnet modelled on IPv4 values); hyper's parsing, connections aborted mid-render and concurrency are NOT covered"),
+ "C19": dict(text="; a value recorded on another thread while a snapshot is in progress (interference at every bucket-operation boundary) appears in exactly one snapshot",
+             note="fixed history shapes of <= 7 calls; abstract key identities; registry, IndexMap/HashMap/Mutex by their contracts; the bucket's operations are atomic steps (C05)"),
+}
+for k, v in MORE.items():
+    CHECKS[k]["text"] += v.get("text", "")
+    if "note" in v:
+        CHECKS[k]["note"] = v["note"]
 NA = {}
 ids = [json.loads(l)["id"] for l in open(os.path.join(V, "properties.jsonl"))]
 try:
